@@ -18,7 +18,7 @@ RULE = ("algebra elements: rotation vector = axis (all directions incl. coordina
         "mpmath matrix exponential for exp; for L=log(T): finite, real, algebra form, |rotation|<=pi, reference exp(L)=T; "
         "log(exp S)=S for |w|<=pi-1e-6. Non-trivial: rotation magnitude < 1e-6, or within 1e-4 of pi, or |t| > 1e3, or pure "
         "translation, or matrix form.")
-RULE = RULE + probes.RULE_TEXT + (probes.AUG_TEXT if PROPERTY_ID in probes.AUG_PROPS else "") + probes.VARIANT_TEXT
+RULE = RULE + probes.RULE_TEXT + (probes.AUG_TEXT if PROPERTY_ID in probes.AUG_PROPS else "") + probes.VARIANT_TEXT + probes.OWN_TEXT
 ASSUMPTIONS = ["mpmath (50 digits, scaling-and-squaring Taylor series) is the reference exponential; the closed-form reference in pbt/refs.py is cross-checked against it at start-up",
                "tolerance 1e-7*max(1,|t|)", "rotation magnitudes in (2e-15, 1e-12) are not generated (the statement starts at 1e-12)",
                "SE2.Exp/SO2.Exp receive ndarrays: a Python list there is documented as a sequence of elements"]
@@ -55,8 +55,30 @@ def rotvec_exp():
     return st.tuples(gens.direction3(), mags).map(lambda t: {"axis": t[0], "mag": t[1]})
 
 
+def tiny_vec():
+    """translational parts of the size of rounding residues, in particular around the 10-eps size below which the library
+    calls a vector zero (whether by length or by largest element must not matter)"""
+    mag = st.one_of(gens.logmag(-17, -12), gens.logmag(-3, 0).map(lambda e: 10 * 2.220446049250313e-16 * (1 + e)),
+                    gens.logmag(-3, -0.31).map(lambda e: 10 * 2.220446049250313e-16 * (1 - e)))
+    return st.tuples(gens.direction3(), mag).map(lambda t: [x * t[1] for x in t[0]])
+
+
+def gen_zero_threshold(tier):
+    """pure translations (and translations with a rounding-size rotation) whose length is around the library's 10-eps
+    'zero vector' size, along coordinate, diagonal and generic directions"""
+    eps = 2.220446049250313e-16
+    for d in ([1, 1, 1], [1, -1, 1], [1, 1, 0], [0, 1, -1], [1, 0, 0], [0.6, 0.8, 0], [2, 3, 6], [-1, 2, 2]):
+        u = [x / math.sqrt(sum(y * y for y in d)) for x in d]
+        for m in (0.5, 0.9, 1.001, 1.1, 1.3, 1.5, 1.7, 2.0, 3.0, 10.0, 100.0):
+            for matrix in (False, True):
+                for theta_form in (False, True):
+                    yield {"kind": "exp3", "w": {"axis": [0.0, 0.0, 1.0], "mag": 0.5}, "v": [x * m * 10 * eps for x in u], "se": True, "matrix": matrix,
+                           "theta_form": theta_form, "norm6": False, "wzero": True}
+
+
 def s_exp3():
-    return st.fixed_dictionaries({"kind": st.just("exp3"), "w": rotvec_exp(), "v": st.one_of(gens.trans(3, -6, 6), st.just([0.0, 0.0, 0.0])),
+    return st.fixed_dictionaries({"kind": st.just("exp3"), "w": rotvec_exp(), "v": st.one_of(gens.trans(3, -6, 6), gens.trans(3, -6, 6), st.just([0.0, 0.0, 0.0]), tiny_vec()),
+                                  "wzero": st.sampled_from([False, False, False, True]),
                                   "se": st.booleans(), "matrix": st.booleans(), "theta_form": st.booleans(),
                                   "norm6": st.sampled_from([False, False, False, False, True])})
 
@@ -148,7 +170,7 @@ def _thetatype(case):
 
 
 def check_case(case):
-    if case.get("kind") in ("hist", "aug", "variant"):
+    if case.get("kind") in ("hist", "aug", "variant", "own"):
         return probes.run(case, PROPERTY_ID)
     return {"exp3": _exp3, "log3": _log3, "exp2": _exp2, "log2": _log2, "thetatype": _thetatype}[case["kind"]](case)
 
@@ -164,6 +186,8 @@ def _exp3(case):
     w, v = _wv(case)
     th = case["w"]["mag"]
     se = case["se"]
+    if case.get("wzero") and se:
+        w, th = np.zeros(3), 0.0          # pure translation
     if case.get("norm6") and se:
         # the 6-vector as a whole has norm 1 (|w| < 1 in general): not a unit twist, and must not be treated as one
         n6 = float(np.linalg.norm(np.r_[v, w]))
@@ -409,7 +433,7 @@ def _log2(case):
 
 
 def classify(case):
-    if case.get("kind") in ("hist", "aug", "variant"):
+    if case.get("kind") in ("hist", "aug", "variant", "own"):
         return probes.classify(case)
     if case.get("kind") == "thetatype":
         return {"kind:thetatype": True, "thetatype:" + case["type"]: True, "deg": case["unit"] == "deg", "nontrivial": case["type"] not in ("float", "np.float64")}
@@ -427,6 +451,7 @@ def classify(case):
 def subchecks(tier):
     return [
         Sub("exp3", strategy=s_exp3(), n=(400, 8000), shards=(6, 16)),
+        Sub("exp3_zero_threshold", gen=gen_zero_threshold, shards=(1, 2)),
         Sub("log3", strategy=s_log3(), n=(700, 15000), shards=(5, 16)),
         Sub("exp2", strategy=s_exp2(), n=(500, 6000), shards=(5, 16)),
         Sub("log2", strategy=s_log2(), n=(700, 12000), shards=(4, 16)),
